@@ -16,6 +16,7 @@ package checks
 // reads legitimately waiting.
 
 import (
+	"strings"
 	"fmt"
 	"io"
 	"net"
@@ -454,12 +455,17 @@ func C17(tier string) *engine.Report {
 		d.Budget = 25 * time.Minute
 	}
 	tot.Add(d.Run(), rep)
+	// a second session on the same Stream (this driver attaches the transport directly, never through the handshake)
+	tot.Add(c18ResumedDFS(tier).Run(), rep)
 	tot.Fill(rep, "all action sequences up to the depth bound over a real Stream + AsyncAdapter + socketpair: start AsyncNextFrame/AsyncNextMessage, AsyncWrite, AsyncClose, peer data/ping/close, poll; read-handler behaviours (start a read, a write, both in either order) are deviations; "+
-		"then the loop is run to quiescence (epoll fd not readable and PollOne idle) and callbacks, consumed frames, the peer's byte stream and Pending() are judged; non-trivial = at least one action", d.MaxDeviations)
+		"then the loop is run to quiescence (epoll fd not readable and PollOne idle) and callbacks, consumed frames, the peer's byte stream and Pending() are judged; non-trivial = at least one action; plus, over real TCP, every shape of an earlier session on the same Stream (dropped with unread input, queued replies, a failed write) x blocking/async handshake: the server of the second session receives exactly the first message written, nothing of the earlier one", d.MaxDeviations)
 	rep.Coverage["depth"] = map[string]int{"quick": 5, "thorough": 7}[tier]
 	return rep
 }
 
 func C17Replay(v engine.Violation, log func(string)) *engine.Violation {
+	if strings.HasPrefix(v.Config, "resumed-session@") {
+		return c18ResumedDFS(v.Config[16:]).ReplayChoices(v.Choices)
+	}
 	return c17DFS(v.Config[5:]).ReplayChoices(v.Choices)
 }
